@@ -125,3 +125,78 @@ Example C12_example :
   /\ apply_evs [] (acked (firstn 8 (combine (fst (Loop.run ia L rs)) rs))) = []
   /\ since_tab false [] (combine (fst (Loop.run ia L rs)) rs) = [IEv (Released 31%N); IEv (Pressed 32%N)].
 Proof. vm_compute. repeat split; reflexivity. Qed.
+
+(* ---------- the tablet-mode switch device ---------- *)
+
+(* The tablet events of the theorems above (`RTab (NOne on)`, the answers to the
+   loop's `next_tablet`) are produced by TabletModeSwitchReader::next
+   (src/tablet_mode_switch_reader.rs) decoding the records of the tablet-mode
+   switch device.  Model: TM.TabletWire (same buffer handling as
+   DevInputReader::next, TM.Wire: 24-byte input_event, type/code/value at
+   16/18/20, little-endian — assumptions measured by the `wire` engine);
+   specification: TabletWire.tablet_events_of; proofs: TM.TabletWireLemmas.
+   The real reader is run on generated record streams by the `wire` engine
+   (class TABLET, clause C12.switch_reader). *)
+From TM Require Import Wire WireSpec TabletWire TabletWireLemmas.
+
+(* For EVERY sequence of device records — any 16 time bytes, type and code any
+   u16, value any i32 on every record — calling next() until the descriptor is
+   drained returns exactly one event per record that is EV_SW (type 5) /
+   SW_TABLET_MODE (code 1) with value 1 (On = true) or value 0 (Off = false), in
+   order; every other record (other switches such as SW_LID = code 0, EV_SYN,
+   EV_KEY, EV_MSC, other values) is skipped; and no index panics. *)
+Theorem C12_switch_reader_exact :
+  forall rs : list raw,
+    (forall r, In r rs -> raw_wf r = true) ->
+    decode_tablet_run (raw_stream rs) = (tablet_events_of rs, Drained).
+Proof. exact decode_tablet_run_raw. Qed.
+Print Assumptions C12_switch_reader_exact.
+
+(* ... where tablet_events_of is, record by record: *)
+Theorem C12_switch_reader_spec :
+  (forall (r : raw) (rs : list raw),
+      tablet_events_of (r :: rs) =
+      match tablet_event r with Some on => on :: tablet_events_of rs | None => tablet_events_of rs end)
+  /\ tablet_events_of [] = []
+  /\ (forall (r : raw) (on : bool),
+        tablet_event r = Some on <->
+        (r_type r = 5%N /\ r_code r = 1%N /\ r_value r = (if on then 1 else 0)%Z)).
+Proof. exact tablet_events_of_spec. Qed.
+Print Assumptions C12_switch_reader_spec.
+
+(* On ANY byte stream (garbage, truncated) no call of next() panics. *)
+Theorem C12_switch_reader_never_panics :
+  forall s : list N, snd (decode_tablet_run s) = Drained.
+Proof. exact decode_tablet_run_no_panic. Qed.
+Print Assumptions C12_switch_reader_never_panics.
+
+(* The extracted checker that judges the REAL reader's answers (clause
+   C12.switch_reader of the wire engine) accepts exactly the specified list, and
+   therefore never fires on the model. *)
+Theorem C12_switch_checker_never_fires_on_model :
+  (forall (rs : list raw) (returned : list bool),
+      check_switch_reader rs returned = true <-> returned = tablet_events_of rs)
+  /\ (forall rs : list raw,
+        (forall r, In r rs -> raw_wf r = true) ->
+        check_switch_reader rs (fst (decode_tablet_run (raw_stream rs))) = true).
+Proof. exact switch_checker_full. Qed.
+Print Assumptions C12_switch_checker_never_fires_on_model.
+
+(* Non-vacuity: SW_LID closing (code 0), tablet mode On, a key press, an
+   EV_SYN, tablet mode Off, a value-2 record on the tablet switch, a record whose
+   type has 5 in the low byte only (0x0105), and an On again: On, Off, On. *)
+Example C12_switch_reader_example :
+  let rs := [mk_raw 1700000000 11 5 0 1;
+             mk_raw 1700000000 12 5 1 1;
+             mk_raw 1700000001 13 1 30 1;
+             mk_raw 1700000001 14 0 0 0;
+             mk_raw 1700000002 15 5 1 0;
+             mk_raw (-1) 16 5 1 2;
+             mk_raw 1700000003 17 261 1 1;
+             mk_raw 1700000004 18 5 1 1] in
+  forallb raw_wf rs = true
+  /\ tablet_events_of rs = [true; false; true]
+  /\ decode_tablet_run (raw_stream rs) = ([true; false; true], Drained)
+  /\ decode_run (raw_stream rs) = ([Pressed 30%N], Drained)
+  /\ snd (decode_tablet_run (firstn 100 (raw_stream rs))) = Drained.
+Proof. vm_compute. repeat split; reflexivity. Qed.
